@@ -11,9 +11,9 @@ namespace MsVerif.TypeSound
 open MsVerif MsVerif.Script
 
 /-- stack effect of the children of a `thresh` processed so far -/
-def ThreshPost (first : Bool) (s s' : List Bytes) : Prop :=
-  if first then ∃ v m, s' = v :: s.drop m
-  else ∃ a tl v m, s = a :: tl ∧ s' = v :: tl.drop m
+def ThreshPost (first : Bool) (N : Nat) (s s' : List Bytes) : Prop :=
+  if first then ∃ v m, m ≤ N ∧ s' = v :: s.drop m
+  else ∃ a tl v m, m ≤ N ∧ s = a :: tl ∧ s' = v :: tl.drop m
 
 theorem one_bytes : (if (1 : Nat) = 0 then ([] : Bytes) else [UInt8.ofNat 1]) = [1] := by decide
 
@@ -41,41 +41,42 @@ theorem size_zne_ok {env : Env} {c c1 c2 : Core} (h1 : opc env .size c = .ok c1)
     exact List.eq_nil_of_length_eq_zero (decode_size_ne_zero hv)
   · cases hx
 
-/-- a `Post` for the stack `s.drop n` is a `Post` for `s` (B, V, K) -/
-theorem Post.shift {t t' : Corr} {s s' : List Bytes} (n : Nat) (h : Post t (s.drop n) s')
-    (hb : t'.base = t.base) (hu : t'.unit = true → t.unit = true) (hw : t.base ≠ .W) : Post t' s s' := by
+/-- a `PostN` for the stack `s.drop n` is a `PostN` for `s` (B, V, K), the bounds add up -/
+theorem PostN.shift {t t' : Corr} {M N : Nat} {s s' : List Bytes} (n : Nat) (h : PostN t M (s.drop n) s')
+    (hb : t'.base = t.base) (hu : t'.unit = true → t.unit = true) (hw : t.base ≠ .W) (hN : n + M ≤ N) :
+    PostN t' N s s' := by
   cases htb : t.base with
   | B =>
-    obtain ⟨v, m, e, u⟩ := (Post.B htb).1 h
-    exact (Post.B (hb.trans htb)).2 ⟨v, n + m, by rw [e, drop_drop'], fun h1 => u (hu h1)⟩
+    obtain ⟨v, m, hm, e, u⟩ := (PostN.B htb).1 h
+    exact (PostN.B (hb.trans htb)).2 ⟨v, n + m, by omega, by rw [e, drop_drop'], fun h1 => u (hu h1)⟩
   | V =>
-    obtain ⟨m, e⟩ := (Post.V htb).1 h
-    exact (Post.V (hb.trans htb)).2 ⟨n + m, by rw [e, drop_drop']⟩
+    obtain ⟨m, hm, e⟩ := (PostN.V htb).1 h
+    exact (PostN.V (hb.trans htb)).2 ⟨n + m, by omega, by rw [e, drop_drop']⟩
   | K =>
-    obtain ⟨k, m, e⟩ := (Post.K htb).1 h
-    exact (Post.K (hb.trans htb)).2 ⟨k, n + m, by rw [e, drop_drop']⟩
+    obtain ⟨k, m, hm, e⟩ := (PostN.K htb).1 h
+    exact (PostN.K (hb.trans htb)).2 ⟨k, n + m, by omega, by rw [e, drop_drop']⟩
   | W => exact absurd htb hw
 
 mutual
-theorem shape {env : Env} (hlim : env.flags.stackLimits = false) (ke : KeyEnv) (ctx : Ctx) :
+theorem shapeN {env : Env} (hlim : env.flags.stackLimits = false) (ke : KeyEnv) (ctx : Ctx) :
     (ms : Ms) → wf ms = true → ∀ (τ : Ty), typeOf ms = some τ → ∀ (c c' : Core),
-      frag env ke ctx ms c = .ok c' → c'.alt = c.alt ∧ Post τ.corr c.stack c'.stack
+      frag env ke ctx ms c = .ok c' → c'.alt = c.alt ∧ PostN τ.corr (maxArgs ms) c.stack c'.stack
   | .tru, _, τ, h, c, c', hr => by
     simp only [typeOf] at h; cases h
     rw [frag] at hr
     obtain ⟨hs, ha⟩ := pushElem_ok hr
-    refine ⟨ha, (Post.B rfl).2 ⟨_, 0, hs, fun _ _ => one_bytes⟩⟩
+    refine ⟨ha, (PostN.B rfl).2 ⟨_, 0, by simp only [maxArgs, maxArgsL]; omega, hs, fun _ _ => one_bytes⟩⟩
   | .fls, _, τ, h, c, c', hr => by
     simp only [typeOf] at h; cases h
     rw [frag] at hr
     obtain ⟨hs, ha⟩ := pushElem_ok hr
-    refine ⟨ha, (Post.B rfl).2 ⟨_, 0, hs, fun _ hv => ?_⟩⟩
+    refine ⟨ha, (PostN.B rfl).2 ⟨_, 0, by simp only [maxArgs, maxArgsL]; omega, hs, fun _ hv => ?_⟩⟩
     simp [castToBool] at hv
   | .pkK k, _, τ, h, c, c', hr => by
     simp only [typeOf] at h; cases h
     rw [frag] at hr
     obtain ⟨hs, ha⟩ := psh_ok hr
-    exact ⟨ha, (Post.K rfl).2 ⟨_, 0, hs⟩⟩
+    exact ⟨ha, (PostN.K rfl).2 ⟨_, 0, by simp only [maxArgs, maxArgsL]; omega, hs⟩⟩
   | .pkH k, _, τ, h, c, c', hr => by
     simp only [typeOf] at h; cases h
     rw [frag] at hr
@@ -94,7 +95,7 @@ theorem shape {env : Env} (hlim : env.flags.stackLimits = false) (ke : KeyEnv) (
     rw [e3, e2'] at e4
     simp only [List.cons.injEq] at e4
     obtain ⟨_, _, e4⟩ := e4
-    refine ⟨by rw [a4, a3, a2', a1], (Post.K rfl).2 ⟨a, 1, ?_⟩⟩
+    refine ⟨by rw [a4, a3, a2', a1], (PostN.K rfl).2 ⟨a, 1, by simp only [maxArgs, maxArgsL]; omega, ?_⟩⟩
     rw [← e4, e1]; rfl
   | .rawPkH k, _, τ, h, c, c', hr => by
     simp only [typeOf] at h; cases h
@@ -114,7 +115,7 @@ theorem shape {env : Env} (hlim : env.flags.stackLimits = false) (ke : KeyEnv) (
     rw [e3, e2'] at e4
     simp only [List.cons.injEq] at e4
     obtain ⟨_, _, e4⟩ := e4
-    refine ⟨by rw [a4, a3, a2', a1], (Post.K rfl).2 ⟨a, 1, ?_⟩⟩
+    refine ⟨by rw [a4, a3, a2', a1], (PostN.K rfl).2 ⟨a, 1, by simp only [maxArgs, maxArgsL]; omega, ?_⟩⟩
     rw [← e4, e1]; rfl
   | .after n, _, τ, h, c, c', hr => by
     simp only [typeOf] at h; cases h
@@ -124,7 +125,7 @@ theorem shape {env : Env} (hlim : env.flags.stackLimits = false) (ke : KeyEnv) (
     cases seqOps_nil_ok hr
     obtain ⟨e1, a1⟩ := pushInt_ok h1
     obtain ⟨e2, a2⟩ := locktime_ok (o := .cltv) (Or.inl rfl) h2
-    refine ⟨by rw [a2, a1], (Post.B rfl).2 ⟨_, 0, by rw [e2, e1]; rfl, fun hu => ?_⟩⟩
+    refine ⟨by rw [a2, a1], (PostN.B rfl).2 ⟨_, 0, by simp only [maxArgs, maxArgsL]; omega, by rw [e2, e1]; rfl, fun hu => ?_⟩⟩
     simp [Ty.time, Corr.time] at hu
   | .older n, _, τ, h, c, c', hr => by
     simp only [typeOf] at h; cases h
@@ -134,7 +135,7 @@ theorem shape {env : Env} (hlim : env.flags.stackLimits = false) (ke : KeyEnv) (
     cases seqOps_nil_ok hr
     obtain ⟨e1, a1⟩ := pushInt_ok h1
     obtain ⟨e2, a2⟩ := locktime_ok (o := .csv) (Or.inr rfl) h2
-    refine ⟨by rw [a2, a1], (Post.B rfl).2 ⟨_, 0, by rw [e2, e1]; rfl, fun hu => ?_⟩⟩
+    refine ⟨by rw [a2, a1], (PostN.B rfl).2 ⟨_, 0, by simp only [maxArgs, maxArgsL]; omega, by rw [e2, e1]; rfl, fun hu => ?_⟩⟩
     simp [Ty.time, Corr.time] at hu
   | .hash kind hh, _, τ, h, c, c', hr => by
     simp only [typeOf] at h; cases h
@@ -161,31 +162,32 @@ theorem shape {env : Env} (hlim : env.flags.stackLimits = false) (ke : KeyEnv) (
     rw [e5, e4'] at e6
     simp only [List.cons.injEq] at e6
     obtain ⟨_, _, rfl⟩ := e6
-    refine ⟨by rw [a6, a5, a4', a3, a2, a1], (Post.B rfl).2 ⟨boolBytes v6, 1, ?_, fun _ hv => boolBytes_unit _ hv⟩⟩
+    refine ⟨by rw [a6, a5, a4', a3, a2, a1], (PostN.B rfl).2 ⟨boolBytes v6, 1, by simp only [maxArgs, maxArgsL]; omega, ?_, fun _ hv => boolBytes_unit _ hv⟩⟩
     rw [e6', e1]; rfl
   | .multi k ks, hw, τ, h, c, c', hr => by
     simp only [typeOf] at h; cases h
     rw [frag] at hr
     simp only [wf, decide_eq_true_eq] at hw
-    obtain ⟨ha, b, m, hs⟩ := multi_shape ke k ks hw hr
-    exact ⟨ha, (Post.B rfl).2 ⟨_, m, hs, fun _ hv => boolBytes_unit _ hv⟩⟩
+    obtain ⟨ha, b, m, hm, hs⟩ := multi_shape ke k ks hw hr
+    exact ⟨ha, (PostN.B rfl).2 ⟨_, m, by simp only [maxArgs, maxArgsL]; omega, hs, fun _ hv => boolBytes_unit _ hv⟩⟩
   | .sortedMulti k ks, hw, τ, h, c, c', hr => by
     simp only [typeOf] at h; cases h
     rw [frag] at hr
     simp only [wf, decide_eq_true_eq] at hw
     rw [← sortKeys_length ke ks] at hr hw
-    obtain ⟨ha, b, m, hs⟩ := multi_shape ke k (sortKeys ke ks) hw hr
-    exact ⟨ha, (Post.B rfl).2 ⟨_, m, hs, fun _ hv => boolBytes_unit _ hv⟩⟩
+    obtain ⟨ha, b, m, hm, hs⟩ := multi_shape ke k (sortKeys ke ks) hw hr
+    exact ⟨ha, (PostN.B rfl).2 ⟨_, m, by simp only [maxArgs, maxArgsL]; omega, hs, fun _ hv => boolBytes_unit _ hv⟩⟩
   | .multiA k ks, _, τ, h, c, c', hr => by
     simp only [typeOf] at h; cases h
     rw [frag] at hr
-    obtain ⟨ha, b, m, hs⟩ := multiA_shape ke k ks hr
-    exact ⟨ha, (Post.B rfl).2 ⟨_, m, hs, fun _ hv => boolBytes_unit _ hv⟩⟩
+    obtain ⟨ha, b, m, hm, hs⟩ := multiA_shape ke k ks hr
+    exact ⟨ha, (PostN.B rfl).2 ⟨_, m, by simp only [maxArgs, maxArgsL]; omega, hs, fun _ hv => boolBytes_unit _ hv⟩⟩
   | .sortedMultiA k ks, _, τ, h, c, c', hr => by
     simp only [typeOf] at h; cases h
     rw [frag] at hr
-    obtain ⟨ha, b, m, hs⟩ := multiA_shape ke k (sortKeys ke ks) hr
-    exact ⟨ha, (Post.B rfl).2 ⟨_, m, hs, fun _ hv => boolBytes_unit _ hv⟩⟩
+    obtain ⟨ha, b, m, hm, hs⟩ := multiA_shape ke k (sortKeys ke ks) hr
+    rw [sortKeys_length] at hm
+    exact ⟨ha, (PostN.B rfl).2 ⟨_, m, by simp only [maxArgs, maxArgsL]; omega, hs, fun _ hv => boolBytes_unit _ hv⟩⟩
   | .alt x, hw, τ, h, c, c', hr => by
     simp only [typeOf] at h
     obtain ⟨a, hx, h⟩ := typeOf_un h
@@ -194,15 +196,15 @@ theorem shape {env : Env} (hlim : env.flags.stackLimits = false) (ke : KeyEnv) (
     obtain ⟨c1, h1, hr⟩ := bind_ok hr
     obtain ⟨c2, h2, h3⟩ := bind_ok hr
     obtain ⟨e, e1, a1⟩ := toalt_ok h1
-    obtain ⟨ih1, ih2⟩ := shape hlim ke ctx x (by simpa [wf] using hw) a hx c1 c2 h2
-    obtain ⟨v, n, e2, hu⟩ := (Post.B hab).1 ih2
+    obtain ⟨ih1, ih2⟩ := shapeN hlim ke ctx x (by simpa [wf] using hw) a hx c1 c2 h2
+    obtain ⟨v, n, hbd, e2, hu⟩ := (PostN.B hab).1 ih2
     obtain ⟨e', a3, e3⟩ := fromalt_ok h3
     rw [ih1, a1] at a3
     simp only [List.cons.injEq] at a3
     obtain ⟨rfl, a3⟩ := a3
     refine ⟨a3.symm, ?_⟩
     rw [hy]
-    refine (Post.W rfl).2 ⟨e, c1.stack, v, n, e1, Or.inl (by rw [e3, e2]), hu⟩
+    refine (PostN.W rfl).2 ⟨e, c1.stack, v, n, by simp only [maxArgs, maxArgsL]; omega, e1, Or.inl (by rw [e3, e2]), hu⟩
   | .swap x, hw, τ, h, c, c', hr => by
     simp only [typeOf] at h
     obtain ⟨a, hx, h⟩ := typeOf_un h
@@ -211,8 +213,8 @@ theorem shape {env : Env} (hlim : env.flags.stackLimits = false) (ke : KeyEnv) (
     obtain ⟨c1, h1, h2⟩ := bind_ok hr
     obtain ⟨p, q, r, e1, e1', a1⟩ := swap_ok h1
     have hwx : wf x = true := by simpa [wf] using hw
-    obtain ⟨ih1, ih2⟩ := shape hlim ke ctx x hwx a hx c1 c' h2
-    obtain ⟨v, n, e2, hu⟩ := (Post.B hab).1 ih2
+    obtain ⟨ih1, ih2⟩ := shapeN hlim ke ctx x hwx a hx c1 c' h2
+    obtain ⟨v, n, hbd, e2, hu⟩ := (PostN.B hab).1 ih2
     -- `X` is one-arg: it consumes exactly `q` and leaves exactly one element
     have hna : nargs a.corr.input = some 1 := by rcases hai with h1 | h1 <;> rw [h1] <;> rfl
     have hc := args_cons hlim ke ctx x hwx a 1 hx hna
@@ -224,22 +226,22 @@ theorem shape {env : Env} (hlim : env.flags.stackLimits = false) (ke : KeyEnv) (
     obtain ⟨rfl, _⟩ := e2
     refine ⟨ih1.trans a1, ?_⟩
     rw [hy]
-    exact (Post.W rfl).2 ⟨p, q :: r, w, 1, e1, Or.inr (by rw [hs]; rfl), hu⟩
+    exact (PostN.W rfl).2 ⟨p, q :: r, w, 1, by simp only [maxArgs, maxArgsL]; omega, e1, Or.inr (by rw [hs]; rfl), hu⟩
   | .check x, hw, τ, h, c, c', hr => by
     simp only [typeOf] at h
     obtain ⟨a, hx, h⟩ := typeOf_un h
     obtain ⟨hab, hy⟩ := castCheck_inv (lift1_corr h)
     rw [frag_check] at hr
     obtain ⟨c1, h1, h2⟩ := bind_ok hr
-    obtain ⟨ih1, ih2⟩ := shape hlim ke ctx x (by simpa [wf] using hw) a hx c c1 h1
-    obtain ⟨k, n, e1⟩ := (Post.K hab).1 ih2
+    obtain ⟨ih1, ih2⟩ := shapeN hlim ke ctx x (by simpa [wf] using hw) a hx c c1 h1
+    obtain ⟨k, n, hbd, e1⟩ := (PostN.K hab).1 ih2
     obtain ⟨p, q, r, v, e2, e2', a2⟩ := bool2_ok (o := .checksig) (by simp) h2
     rw [e1] at e2
     simp only [List.cons.injEq] at e2
     obtain ⟨_, e2⟩ := e2
     refine ⟨a2.trans ih1, ?_⟩
     rw [hy]
-    exact (Post.B rfl).2 ⟨boolBytes v, n + 1, by rw [e2', drop_succ_of_drop_cons e2],
+    exact (PostN.B rfl).2 ⟨boolBytes v, n + 1, by simp only [maxArgs, maxArgsL]; omega, by rw [e2', drop_succ_of_drop_cons e2],
       fun _ hv => boolBytes_unit _ hv⟩
   | .dupIf x, hw, τ, h, c, c', hr => by
     simp only [typeOf] at h
@@ -255,15 +257,15 @@ theorem shape {env : Env} (hlim : env.flags.stackLimits = false) (ke : KeyEnv) (
     have hwx : wf x = true := by simpa [wf] using hw
     rw [hy]
     rcases hcase with ⟨_, c3, h3, e3, a3⟩ | ⟨_, e3, a3⟩
-    · obtain ⟨ih1, _⟩ := shape hlim ke ctx x hwx a hx c2 c3 h3
+    · obtain ⟨ih1, _⟩ := shapeN hlim ke ctx x hwx a hx c2 c3 h3
       have hc := args_cons hlim ke ctx x hwx a 0 hx (by rw [hai]; rfl)
       rw [hab] at hc
       obtain ⟨out, ho, hs⟩ := (hc.at c2 [] c2.stack rfl rfl).2 c3 h3
       have : out = [] := List.eq_nil_of_length_eq_zero ho
       subst this
-      refine ⟨by rw [a3, ih1, a2, a1], (Post.B rfl).2 ⟨p, 1, ?_, fun hu => by simp at hu⟩⟩
+      refine ⟨by rw [a3, ih1, a2, a1], (PostN.B rfl).2 ⟨p, 1, by simp only [maxArgs, maxArgsL]; omega, ?_, fun hu => by simp at hu⟩⟩
       rw [e3, hs, ← e2, e1]; rfl
-    · refine ⟨by rw [a3, a2, a1], (Post.B rfl).2 ⟨p, 1, ?_, fun hu => by simp at hu⟩⟩
+    · refine ⟨by rw [a3, a2, a1], (PostN.B rfl).2 ⟨p, 1, by simp only [maxArgs, maxArgsL]; omega, ?_, fun hu => by simp at hu⟩⟩
       rw [e3, ← e2, e1]; rfl
   | .verify x, hw, τ, h, c, c', hr => by
     simp only [typeOf] at h
@@ -271,14 +273,14 @@ theorem shape {env : Env} (hlim : env.flags.stackLimits = false) (ke : KeyEnv) (
     obtain ⟨hab, hy⟩ := castVerify_inv (lift1_corr h)
     rw [frag_verify] at hr
     obtain ⟨c1, h1, h2⟩ := bind_ok hr
-    obtain ⟨ih1, ih2⟩ := shape hlim ke ctx x (by simpa [wf] using hw) a hx c c1 h1
-    obtain ⟨v, n, e1, _⟩ := (Post.B hab).1 ih2
+    obtain ⟨ih1, ih2⟩ := shapeN hlim ke ctx x (by simpa [wf] using hw) a hx c c1 h1
+    obtain ⟨v, n, hbd, e1, _⟩ := (PostN.B hab).1 ih2
     obtain ⟨a0, e2, _, a2⟩ := verifyTail_ok h2
     rw [e1] at e2
     simp only [List.cons.injEq] at e2
     refine ⟨a2.trans ih1, ?_⟩
     rw [hy]
-    exact (Post.V rfl).2 ⟨n, e2.2.symm⟩
+    exact (PostN.V rfl).2 ⟨n, by simp only [maxArgs, maxArgsL]; omega, e2.2.symm⟩
   | .nonZero x, hw, τ, h, c, c', hr => by
     simp only [typeOf] at h
     obtain ⟨a, hx, h⟩ := typeOf_un h
@@ -293,9 +295,9 @@ theorem shape {env : Env} (hlim : env.flags.stackLimits = false) (ke : KeyEnv) (
     obtain ⟨rfl, e3⟩ := e3
     rw [hy]
     rcases hcase with ⟨_, c4, h4, e4, a4⟩ | ⟨hf, e4, a4⟩
-    · obtain ⟨ih1, ih2⟩ := shape hlim ke ctx x (by simpa [wf] using hw) a hx c3 c4 h4
-      obtain ⟨v, n, e5, hu⟩ := (Post.B hab).1 ih2
-      refine ⟨by rw [a4, ih1, a3, a2], (Post.B rfl).2 ⟨v, n, ?_, hu⟩⟩
+    · obtain ⟨ih1, ih2⟩ := shapeN hlim ke ctx x (by simpa [wf] using hw) a hx c3 c4 h4
+      obtain ⟨v, n, hbd, e5, hu⟩ := (PostN.B hab).1 ih2
+      refine ⟨by rw [a4, ih1, a3, a2], (PostN.B rfl).2 ⟨v, n, by simp only [maxArgs, maxArgsL]; omega, ?_, hu⟩⟩
       rw [e4, e5, ← e3, e1]
     · have hbf : b = false := by
         cases b
@@ -303,7 +305,7 @@ theorem shape {env : Env} (hlim : env.flags.stackLimits = false) (ke : KeyEnv) (
         · simp [condFlag, boolBytes, castToBool] at hf
       have hp := hb hbf
       subst hp
-      refine ⟨by rw [a4, a3, a2], (Post.B rfl).2 ⟨[], 1, ?_, fun _ hv => by simp [castToBool] at hv⟩⟩
+      refine ⟨by rw [a4, a3, a2], (PostN.B rfl).2 ⟨[], 1, by simp only [maxArgs, maxArgsL]; omega, ?_, fun _ hv => by simp [castToBool] at hv⟩⟩
       rw [e4, ← e3, e1]; rfl
   | .zeroNotEqual x, hw, τ, h, c, c', hr => by
     simp only [typeOf] at h
@@ -311,14 +313,14 @@ theorem shape {env : Env} (hlim : env.flags.stackLimits = false) (ke : KeyEnv) (
     obtain ⟨hab, hy⟩ := castZeroNotEqual_inv (lift1_corr h)
     rw [frag_zeroNotEqual] at hr
     obtain ⟨c1, h1, h2⟩ := bind_ok hr
-    obtain ⟨ih1, ih2⟩ := shape hlim ke ctx x (by simpa [wf] using hw) a hx c c1 h1
-    obtain ⟨v, n, e1, _⟩ := (Post.B hab).1 ih2
+    obtain ⟨ih1, ih2⟩ := shapeN hlim ke ctx x (by simpa [wf] using hw) a hx c c1 h1
+    obtain ⟨v, n, hbd, e1, _⟩ := (PostN.B hab).1 ih2
     obtain ⟨a0, r0, b, e2, e2', a2⟩ := zeronotequal_ok h2
     rw [e1] at e2
     simp only [List.cons.injEq] at e2
     refine ⟨a2.trans ih1, ?_⟩
     rw [hy]
-    exact (Post.B rfl).2 ⟨boolBytes b, n, by rw [e2', e2.2], fun _ hv => boolBytes_unit _ hv⟩
+    exact (PostN.B rfl).2 ⟨boolBytes b, n, by simp only [maxArgs, maxArgsL]; omega, by rw [e2', e2.2], fun _ hv => boolBytes_unit _ hv⟩
   | .andV l r, hw, τ, h, c, c', hr => by
     simp only [typeOf] at h
     obtain ⟨a, b, hl, hrr, h⟩ := typeOf_bin h
@@ -326,13 +328,13 @@ theorem shape {env : Env} (hlim : env.flags.stackLimits = false) (ke : KeyEnv) (
     simp only [wf, Bool.and_eq_true] at hw
     rw [frag_andV] at hr
     obtain ⟨c1, h1, h2⟩ := bind_ok hr
-    obtain ⟨ih1, ih2⟩ := shape hlim ke ctx l hw.1 a hl c c1 h1
-    obtain ⟨jh1, jh2⟩ := shape hlim ke ctx r hw.2 b hrr c1 c' h2
-    obtain ⟨n, e1⟩ := (Post.V hab).1 ih2
+    obtain ⟨ih1, ih2⟩ := shapeN hlim ke ctx l hw.1 a hl c c1 h1
+    obtain ⟨jh1, jh2⟩ := shapeN hlim ke ctx r hw.2 b hrr c1 c' h2
+    obtain ⟨n, hbd, e1⟩ := (PostN.V hab).1 ih2
     rw [e1] at jh2
     refine ⟨jh1.trans ih1, ?_⟩
     rw [hy]
-    refine Post.shift n jh2 rfl (fun hu => hu) ?_
+    refine PostN.shift n jh2 rfl (fun hu => hu) ?_ (by simp only [maxArgs, maxArgsL]; omega)
     rcases hbb with hb | hb | hb <;> rw [hb] <;> simp
   | .andB l r, hw, τ, h, c, c', hr => by
     simp only [typeOf] at h
@@ -342,10 +344,10 @@ theorem shape {env : Env} (hlim : env.flags.stackLimits = false) (ke : KeyEnv) (
     rw [frag_andB] at hr
     obtain ⟨c1, h1, hr⟩ := bind_ok hr
     obtain ⟨c2, h2, h3⟩ := bind_ok hr
-    obtain ⟨ih1, ih2⟩ := shape hlim ke ctx l hw.1 a hl c c1 h1
-    obtain ⟨jh1, jh2⟩ := shape hlim ke ctx r hw.2 b hrr c1 c2 h2
-    obtain ⟨v, n, e1, _⟩ := (Post.B hab).1 ih2
-    obtain ⟨x, tl, w, m, e2, e3, _⟩ := (Post.W hbb).1 jh2
+    obtain ⟨ih1, ih2⟩ := shapeN hlim ke ctx l hw.1 a hl c c1 h1
+    obtain ⟨jh1, jh2⟩ := shapeN hlim ke ctx r hw.2 b hrr c1 c2 h2
+    obtain ⟨v, n, hbd, e1, _⟩ := (PostN.B hab).1 ih2
+    obtain ⟨x, tl, w, m, hbd, e2, e3, _⟩ := (PostN.W hbb).1 jh2
     obtain ⟨p, q, r', bv, e4, e4', a4⟩ := bool2_ok (o := .booland) (by simp) h3
     rw [e1] at e2
     simp only [List.cons.injEq] at e2
@@ -354,7 +356,7 @@ theorem shape {env : Env} (hlim : env.flags.stackLimits = false) (ke : KeyEnv) (
       rcases e3 with e3 | e3 <;> rw [e3] at e4 <;> simp only [List.cons.injEq] at e4 <;> exact e4.2.2.symm
     refine ⟨by rw [a4, jh1, ih1], ?_⟩
     rw [hy]
-    exact (Post.B rfl).2 ⟨boolBytes bv, n + m, by rw [e4', hr', drop_drop'], fun _ hv => boolBytes_unit _ hv⟩
+    exact (PostN.B rfl).2 ⟨boolBytes bv, n + m, by simp only [maxArgs, maxArgsL]; omega, by rw [e4', hr', drop_drop'], fun _ hv => boolBytes_unit _ hv⟩
   | .orB l r, hw, τ, h, c, c', hr => by
     simp only [typeOf] at h
     obtain ⟨a, b, hl, hrr, h⟩ := typeOf_bin h
@@ -363,10 +365,10 @@ theorem shape {env : Env} (hlim : env.flags.stackLimits = false) (ke : KeyEnv) (
     rw [frag_orB] at hr
     obtain ⟨c1, h1, hr⟩ := bind_ok hr
     obtain ⟨c2, h2, h3⟩ := bind_ok hr
-    obtain ⟨ih1, ih2⟩ := shape hlim ke ctx l hw.1 a hl c c1 h1
-    obtain ⟨jh1, jh2⟩ := shape hlim ke ctx r hw.2 b hrr c1 c2 h2
-    obtain ⟨v, n, e1, _⟩ := (Post.B hab).1 ih2
-    obtain ⟨x, tl, w, m, e2, e3, _⟩ := (Post.W hbb).1 jh2
+    obtain ⟨ih1, ih2⟩ := shapeN hlim ke ctx l hw.1 a hl c c1 h1
+    obtain ⟨jh1, jh2⟩ := shapeN hlim ke ctx r hw.2 b hrr c1 c2 h2
+    obtain ⟨v, n, hbd, e1, _⟩ := (PostN.B hab).1 ih2
+    obtain ⟨x, tl, w, m, hbd, e2, e3, _⟩ := (PostN.W hbb).1 jh2
     obtain ⟨p, q, r', bv, e4, e4', a4⟩ := bool2_ok (o := .boolor) (by simp) h3
     rw [e1] at e2
     simp only [List.cons.injEq] at e2
@@ -375,15 +377,15 @@ theorem shape {env : Env} (hlim : env.flags.stackLimits = false) (ke : KeyEnv) (
       rcases e3 with e3 | e3 <;> rw [e3] at e4 <;> simp only [List.cons.injEq] at e4 <;> exact e4.2.2.symm
     refine ⟨by rw [a4, jh1, ih1], ?_⟩
     rw [hy]
-    exact (Post.B rfl).2 ⟨boolBytes bv, n + m, by rw [e4', hr', drop_drop'], fun _ hv => boolBytes_unit _ hv⟩
+    exact (PostN.B rfl).2 ⟨boolBytes bv, n + m, by simp only [maxArgs, maxArgsL]; omega, by rw [e4', hr', drop_drop'], fun _ hv => boolBytes_unit _ hv⟩
   | .andOr x y z, hw, τ, h, c, c', hr => by
     obtain ⟨a, b, cc, hx, hy', hz, h⟩ := typeOf_andOr h
     obtain ⟨hab, _, _, hbc, hbb, hy⟩ := andOr_inv (andOr_corr h)
     simp only [wf, Bool.and_eq_true] at hw
     rw [frag_andOr] at hr
     obtain ⟨c1, h1, h2⟩ := bind_ok hr
-    obtain ⟨ih1, ih2⟩ := shape hlim ke ctx x hw.1.1 a hx c c1 h1
-    obtain ⟨v, n, e1, _⟩ := (Post.B hab).1 ih2
+    obtain ⟨ih1, ih2⟩ := shapeN hlim ke ctx x hw.1.1 a hx c c1 h1
+    obtain ⟨v, n, hbd, e1, _⟩ := (PostN.B hab).1 ih2
     obtain ⟨a0, c2, c4, e2, a2, e4, a4, hcase⟩ := ifElse_ok h2
     rw [e1] at e2
     simp only [List.cons.injEq] at e2
@@ -391,14 +393,14 @@ theorem shape {env : Env} (hlim : env.flags.stackLimits = false) (ke : KeyEnv) (
     have hnw : b.corr.base ≠ .W := by rcases hbb with hb | hb | hb <;> rw [hb] <;> simp
     rw [hy]
     rcases hcase with ⟨_, h3⟩ | ⟨_, c2', e2', a2', h3⟩
-    · obtain ⟨jh1, jh2⟩ := shape hlim ke ctx z hw.2 cc hz c2 c4 h3
+    · obtain ⟨jh1, jh2⟩ := shapeN hlim ke ctx z hw.2 cc hz c2 c4 h3
       rw [← e2, ← e4] at jh2
-      refine ⟨by rw [a4, jh1, a2, ih1], Post.shift n jh2 hbc (fun hu => ?_) (by rw [← hbc]; exact hnw)⟩
+      refine ⟨by rw [a4, jh1, a2, ih1], PostN.shift n jh2 hbc (fun hu => ?_) (by rw [← hbc]; exact hnw) (by simp only [maxArgs, maxArgsL]; omega)⟩
       simp only [Bool.and_eq_true] at hu
       exact hu.2
-    · obtain ⟨jh1, jh2⟩ := shape hlim ke ctx y hw.1.2 b hy' c2' c4 h3
+    · obtain ⟨jh1, jh2⟩ := shapeN hlim ke ctx y hw.1.2 b hy' c2' c4 h3
       rw [e2', ← e2, ← e4] at jh2
-      refine ⟨by rw [a4, jh1, a2', a2, ih1], Post.shift n jh2 rfl (fun hu => ?_) hnw⟩
+      refine ⟨by rw [a4, jh1, a2', a2, ih1], PostN.shift n jh2 rfl (fun hu => ?_) hnw (by simp only [maxArgs, maxArgsL]; omega)⟩
       simp only [Bool.and_eq_true] at hu
       exact hu.1
   | .orD l r, hw, τ, h, c, c', hr => by
@@ -409,8 +411,8 @@ theorem shape {env : Env} (hlim : env.flags.stackLimits = false) (ke : KeyEnv) (
     rw [frag_orD] at hr
     obtain ⟨c1, h1, hr⟩ := bind_ok hr
     obtain ⟨c2, h2, h3⟩ := bind_ok hr
-    obtain ⟨ih1, ih2⟩ := shape hlim ke ctx l hw.1 a hl c c1 h1
-    obtain ⟨v, n, e1, hu⟩ := (Post.B hab).1 ih2
+    obtain ⟨ih1, ih2⟩ := shapeN hlim ke ctx l hw.1 a hl c c1 h1
+    obtain ⟨v, n, hbd, e1, hu⟩ := (PostN.B hab).1 ih2
     obtain ⟨a0, r0, e2, a2, e2'⟩ := ifdup_ok h2
     rw [e1] at e2
     simp only [List.cons.injEq] at e2
@@ -424,15 +426,15 @@ theorem shape {env : Env} (hlim : env.flags.stackLimits = false) (ke : KeyEnv) (
       obtain ⟨rfl, e3⟩ := e3
       rcases hcase with ⟨hf, _⟩ | ⟨_, e4, a4⟩
       · simp [condFlag, hv] at hf
-      · refine ⟨by rw [a4, a3, a2, ih1], (Post.B rfl).2 ⟨v, n, by rw [e4, ← e3], fun _ _ => hu hau hv⟩⟩
+      · refine ⟨by rw [a4, a3, a2, ih1], (PostN.B rfl).2 ⟨v, n, by simp only [maxArgs, maxArgsL]; omega, by rw [e4, ← e3], fun _ _ => hu hau hv⟩⟩
     · simp only [hv, Bool.false_eq_true, if_false] at e2'
       rw [e2'] at e3
       simp only [List.cons.injEq] at e3
       obtain ⟨rfl, e3⟩ := e3
       rcases hcase with ⟨_, c4, h4, e4, a4⟩ | ⟨hf, _⟩
-      · obtain ⟨jh1, jh2⟩ := shape hlim ke ctx r hw.2 b hrr c3 c4 h4
+      · obtain ⟨jh1, jh2⟩ := shapeN hlim ke ctx r hw.2 b hrr c3 c4 h4
         rw [← e3, ← e4] at jh2
-        refine ⟨by rw [a4, jh1, a3, a2, ih1], Post.shift n jh2 hbb.symm (fun hu' => hu') (by rw [hbb]; simp)⟩
+        refine ⟨by rw [a4, jh1, a3, a2, ih1], PostN.shift n jh2 hbb.symm (fun hu' => hu') (by rw [hbb]; simp) (by simp only [maxArgs, maxArgsL]; omega)⟩
       · simp [condFlag, hv] at hf
   | .orC l r, hw, τ, h, c, c', hr => by
     simp only [typeOf] at h
@@ -441,18 +443,18 @@ theorem shape {env : Env} (hlim : env.flags.stackLimits = false) (ke : KeyEnv) (
     simp only [wf, Bool.and_eq_true] at hw
     rw [frag_orC] at hr
     obtain ⟨c1, h1, h2⟩ := bind_ok hr
-    obtain ⟨ih1, ih2⟩ := shape hlim ke ctx l hw.1 a hl c c1 h1
-    obtain ⟨v, n, e1, _⟩ := (Post.B hab).1 ih2
+    obtain ⟨ih1, ih2⟩ := shapeN hlim ke ctx l hw.1 a hl c c1 h1
+    obtain ⟨v, n, hbd, e1, _⟩ := (PostN.B hab).1 ih2
     obtain ⟨a1, c3, e3, a3, hcase⟩ := ifThen_ok h2
     rw [e1] at e3
     simp only [List.cons.injEq] at e3
     obtain ⟨_, e3⟩ := e3
     rw [hy]
     rcases hcase with ⟨_, c4, h4, e4, a4⟩ | ⟨_, e4, a4⟩
-    · obtain ⟨jh1, jh2⟩ := shape hlim ke ctx r hw.2 b hrr c3 c4 h4
+    · obtain ⟨jh1, jh2⟩ := shapeN hlim ke ctx r hw.2 b hrr c3 c4 h4
       rw [← e3, ← e4] at jh2
-      exact ⟨by rw [a4, jh1, a3, ih1], Post.shift n jh2 hbb.symm (fun hu' => by simp at hu') (by rw [hbb]; simp)⟩
-    · exact ⟨by rw [a4, a3, ih1], (Post.V rfl).2 ⟨n, by rw [e4, ← e3]⟩⟩
+      exact ⟨by rw [a4, jh1, a3, ih1], PostN.shift n jh2 hbb.symm (fun hu' => by simp at hu') (by rw [hbb]; simp) (by simp only [maxArgs, maxArgsL]; omega)⟩
+    · exact ⟨by rw [a4, a3, ih1], (PostN.V rfl).2 ⟨n, by simp only [maxArgs, maxArgsL]; omega, by rw [e4, ← e3]⟩⟩
   | .orI l r, hw, τ, h, c, c', hr => by
     simp only [typeOf] at h
     obtain ⟨a, b, hl, hrr, h⟩ := typeOf_bin h
@@ -464,14 +466,14 @@ theorem shape {env : Env} (hlim : env.flags.stackLimits = false) (ke : KeyEnv) (
     have hd : c2.stack = c.stack.drop 1 := by rw [e2]; rfl
     rw [hy]
     rcases hcase with ⟨_, h3⟩ | ⟨_, c2', e2', a2', h3⟩
-    · obtain ⟨jh1, jh2⟩ := shape hlim ke ctx l hw.1 a hl c2 c4 h3
+    · obtain ⟨jh1, jh2⟩ := shapeN hlim ke ctx l hw.1 a hl c2 c4 h3
       rw [hd, ← e4] at jh2
-      refine ⟨by rw [a4, jh1, a2], Post.shift 1 jh2 rfl (fun hu => ?_) hnw⟩
+      refine ⟨by rw [a4, jh1, a2], PostN.shift 1 jh2 rfl (fun hu => ?_) hnw (by simp only [maxArgs, maxArgsL]; omega)⟩
       simp only [Bool.and_eq_true] at hu
       exact hu.1
-    · obtain ⟨jh1, jh2⟩ := shape hlim ke ctx r hw.2 b hrr c2' c4 h3
+    · obtain ⟨jh1, jh2⟩ := shapeN hlim ke ctx r hw.2 b hrr c2' c4 h3
       rw [e2', hd, ← e4] at jh2
-      refine ⟨by rw [a4, jh1, a2', a2], Post.shift 1 jh2 hab (fun hu => ?_) (by rw [← hab]; exact hnw)⟩
+      refine ⟨by rw [a4, jh1, a2', a2], PostN.shift 1 jh2 hab (fun hu => ?_) (by rw [← hab]; exact hnw) (by simp only [maxArgs, maxArgsL]; omega)⟩
       simp only [Bool.and_eq_true] at hu
       exact hu.2
   | .thresh k xs, hw, τ, h, c, c', hr => by
@@ -480,7 +482,7 @@ theorem shape {env : Env} (hlim : env.flags.stackLimits = false) (ke : KeyEnv) (
     simp only [wf, Bool.and_eq_true, decide_eq_true_eq] at hw
     rw [frag_thresh] at hr
     obtain ⟨c1, h1, h2⟩ := bind_ok hr
-    obtain ⟨ih1, ih2⟩ := shapeThresh hlim ke ctx xs hw.2 ts hts true 0 0 n (by simp) hloop c c1 h1
+    obtain ⟨ih1, ih2⟩ := shapeThreshN hlim ke ctx xs hw.2 ts hts true 0 0 n (by simp) hloop c c1 h1
     obtain ⟨c2, h3, h4⟩ := seqOps_cons_ok h2
     obtain ⟨c3, h5, h6⟩ := seqOps_cons_ok h4
     cases seqOps_nil_ok h6
@@ -489,18 +491,18 @@ theorem shape {env : Env} (hlim : env.flags.stackLimits = false) (ke : KeyEnv) (
     rcases ih2 with ⟨hnil, _⟩ | ih2
     · rw [hnil] at hw; simp [MsList.length] at hw
     · simp only [ThreshPost, if_true] at ih2
-      obtain ⟨v, m, e1⟩ := ih2
+      obtain ⟨v, m, hm, e1⟩ := ih2
       rw [e3, e1] at e5
       simp only [List.cons.injEq] at e5
       refine ⟨by rw [a5, a3, ih1], ?_⟩
       rw [hy]
-      exact (Post.B rfl).2 ⟨boolBytes bv, m, by rw [e5', ← e5.2.2], fun _ hv => boolBytes_unit _ hv⟩
-theorem shapeThresh {env : Env} (hlim : env.flags.stackLimits = false) (ke : KeyEnv) (ctx : Ctx) :
+      exact (PostN.B rfl).2 ⟨boolBytes bv, m, by simp only [maxArgs, maxArgsL]; omega, by rw [e5', ← e5.2.2], fun _ hv => boolBytes_unit _ hv⟩
+theorem shapeThreshN {env : Env} (hlim : env.flags.stackLimits = false) (ke : KeyEnv) (ctx : Ctx) :
     (xs : MsList) → wfL xs = true → ∀ (ts : List Ty), typesOf xs = some ts →
       ∀ (first : Bool) (i acc n : Nat), (first = true ↔ i = 0) →
         Corr.threshLoop i acc (ts.map (·.corr)) = some n → ∀ (c c' : Core),
           fragThresh env ke ctx first xs c = .ok c' →
-            c'.alt = c.alt ∧ ((xs = .nil ∧ c'.stack = c.stack) ∨ ThreshPost first c.stack c'.stack)
+            c'.alt = c.alt ∧ ((xs = .nil ∧ c'.stack = c.stack) ∨ ThreshPost first (maxArgsL xs) c.stack c'.stack)
   | .nil, _, ts, _, first, i, acc, n, _, _, c, c', hr => by
     rw [fragThresh] at hr
     cases hr
@@ -513,43 +515,64 @@ theorem shapeThresh {env : Env} (hlim : env.flags.stackLimits = false) (ke : Key
     rw [fragThresh_cons] at hr
     obtain ⟨c1, h1, hr⟩ := bind_ok hr
     obtain ⟨c2, h2, h3⟩ := bind_ok hr
-    obtain ⟨ih1, ih2⟩ := shape hlim ke ctx x hw.1 t hx c c1 h1
-    obtain ⟨jh1, jh2⟩ := shapeThresh hlim ke ctx xs hw.2 ts' hxs false (i + 1) _ n (by simp) htail c2 c' h3
+    obtain ⟨ih1, ih2⟩ := shapeN hlim ke ctx x hw.1 t hx c c1 h1
+    obtain ⟨jh1, jh2⟩ := shapeThreshN hlim ke ctx xs hw.2 ts' hxs false (i + 1) _ n (by simp) htail c2 c' h3
     -- after the head (and its ADD): one accumulator on top of a suffix of the input
-    have key : c2.alt = c.alt ∧ ThreshPost first c.stack c2.stack := by
+    have key : c2.alt = c.alt ∧ ThreshPost first (maxArgs x) c.stack c2.stack := by
       cases first with
       | true =>
         have hi0 : i = 0 := hfi.1 rfl
         cases h2
-        obtain ⟨v, m, e1, _⟩ := (Post.B (hB hi0)).1 ih2
-        exact ⟨ih1, by simp only [ThreshPost, if_true]; exact ⟨v, m, e1⟩⟩
+        obtain ⟨v, m, hbd, e1, _⟩ := (PostN.B (hB hi0)).1 ih2
+        exact ⟨ih1, by simp only [ThreshPost, if_true]; exact ⟨v, m, hbd, e1⟩⟩
       | false =>
         have hi0 : i ≠ 0 := fun h0 => by simpa using hfi.2 h0
-        obtain ⟨a0, tl, w, m, e1, e2, _⟩ := (Post.W (hW hi0)).1 ih2
+        obtain ⟨a0, tl, w, m, hbd, e1, e2, _⟩ := (PostN.W (hW hi0)).1 ih2
         obtain ⟨p, q, r', v', e3, e3', a3⟩ := add_ok h2
         have hr' : r' = tl.drop m := by
           rcases e2 with e2 | e2 <;> rw [e2] at e3 <;> simp only [List.cons.injEq] at e3 <;> exact e3.2.2.symm
         refine ⟨a3.trans ih1, ?_⟩
         simp only [ThreshPost, Bool.false_eq_true, if_false]
-        exact ⟨a0, tl, v', m, e1, by rw [e3', hr']⟩
+        exact ⟨a0, tl, v', m, hbd, e1, by rw [e3', hr']⟩
     refine ⟨jh1.trans key.1, Or.inr ?_⟩
-    rcases jh2 with ⟨_, e4⟩ | jh2
-    · rw [e4]; exact key.2
+    rcases jh2 with ⟨hnil, e4⟩ | jh2
+    · rw [e4, hnil]
+      have hk := key.2
+      cases first with
+      | true =>
+        simp only [ThreshPost, if_true] at hk ⊢
+        obtain ⟨v, m, hm, e1⟩ := hk
+        exact ⟨v, m, by simp only [maxArgsL]; omega, e1⟩
+      | false =>
+        simp only [ThreshPost, Bool.false_eq_true, if_false] at hk ⊢
+        obtain ⟨a0, tl, v, m, hm, e0, e1⟩ := hk
+        exact ⟨a0, tl, v, m, by simp only [maxArgsL]; omega, e0, e1⟩
     · simp only [ThreshPost, Bool.false_eq_true, if_false] at jh2
-      obtain ⟨a2, tl2, v2, m2, e5, e6⟩ := jh2
+      obtain ⟨a2, tl2, v2, m2, hm2, e5, e6⟩ := jh2
       cases first with
       | true =>
         simp only [ThreshPost, if_true] at key ⊢
-        obtain ⟨v, m, e1⟩ := key.2
+        obtain ⟨v, m, hm, e1⟩ := key.2
         rw [e1] at e5
         simp only [List.cons.injEq] at e5
-        exact ⟨v2, m + m2, by rw [e6, ← e5.2, drop_drop']⟩
+        exact ⟨v2, m + m2, by simp only [maxArgsL]; omega, by rw [e6, ← e5.2, drop_drop']⟩
       | false =>
         simp only [ThreshPost, Bool.false_eq_true, if_false] at key ⊢
-        obtain ⟨a0, tl, v, m, e0, e1⟩ := key.2
+        obtain ⟨a0, tl, v, m, hm, e0, e1⟩ := key.2
         rw [e1] at e5
         simp only [List.cons.injEq] at e5
-        exact ⟨a0, tl, v2, m + m2, e0, by rw [e6, ← e5.2, drop_drop']⟩
+        exact ⟨a0, tl, v2, m + m2, by simp only [maxArgsL]; omega, e0, by rw [e6, ← e5.2, drop_drop']⟩
 end
+
+theorem drop_min (s : List Bytes) (n : Nat) : s.drop n = s.drop (min n s.length) := by
+  by_cases h : n ≤ s.length
+  · rw [Nat.min_eq_left h]
+  · rw [Nat.min_eq_right (by omega), List.drop_eq_nil_of_le (by omega), List.drop_eq_nil_of_le (Nat.le_refl _)]
+
+/-- the shape theorem without the bound (what the other C06 lemma files use) -/
+theorem shape {env : Env} (hlim : env.flags.stackLimits = false) (ke : KeyEnv) (ctx : Ctx)
+    (ms : Ms) (hwf : wf ms = true) (τ : Ty) (hty : typeOf ms = some τ) (c c' : Core)
+    (hrun : frag env ke ctx ms c = .ok c') : c'.alt = c.alt ∧ Post τ.corr c.stack c'.stack :=
+  ⟨(shapeN hlim ke ctx ms hwf τ hty c c' hrun).1, (shapeN hlim ke ctx ms hwf τ hty c c' hrun).2.toPost⟩
 
 end MsVerif.TypeSound
